@@ -488,7 +488,11 @@ pub fn abstract_plus(first: &Value, second: &Value) -> Value {
 
     match (first_num, second_num) {
         (Some(f), Some(s)) => {
-            return Value::Number(Number::from_f64(f + s).unwrap());
+            // A non-finite sum has no JSON number; like serde_json's own
+            // f64 conversion, represent it as null rather than panicking.
+            return Number::from_f64(f + s)
+                .map(Value::Number)
+                .unwrap_or(Value::Null);
         }
         _ => {}
     };
